@@ -15,7 +15,7 @@ NOT_BUILT = {}
 CHECKS["C01"] = dict(
     level="exploration",
     technique="property-based differential testing: generated programs over the public API (Hypothesis, constructive generator) vs the same program evaluated by NumPy",
-    text="Programs (DAGs of up to 6 operations from a 160-entry table of public functions/operators over 1-3 inputs with independent chunkings, all dtypes, size-0/size-1 dims) are computed under a drawn executor (task-order-permuting sequential, single-threaded, threads, processes) with optimization on/off and compared with NumPy output by output; failures are bucketed by the earliest wrong node and shrunk. Exploration: the space is unbounded, sizes are bounded (sides <= 12, <= 4 dims).",
+    text="Programs (DAGs of up to 6 operations, plus one- and two-operation programs that visit every entry in every run, from a 161-entry table of public functions/operators over 1-3 inputs with independent chunkings, all dtypes, size-0/size-1 dims) are computed under a drawn executor (task-order-permuting sequential, single-threaded, threads, processes) with optimization on/off and compared with NumPy output by output; failures are bucketed by the earliest wrong node and shrunk. Exploration: the space is unbounded, sizes are bounded (sides <= 12, <= 4 dims).",
     design_ref="DESIGN.md section 3 C01",
     note="Trusted: NumPy as reference, Hypothesis, zarr. dtype is not compared (C12). Float comparisons exact where results are exactly representable, stated tolerances otherwise; discontinuous functions of inexact values are not compared.",
 )
@@ -30,7 +30,7 @@ CHECKS["C17"] = dict(
 CHECKS["C12"] = dict(
     level="exploration",
     technique="property-based testing: generated programs executed on a schedule-owning executor whose write proxies check every written block's shape against its target region; declared metadata compared with computed results and stored zarr metadata",
-    text="For every generated program all nodes are requested unoptimized (run A) and the outputs optimized (run B). Every task of every operation writes through checking proxies (cubed's own task bodies run unchanged) that compare value.shape with the selection's shape, so a block silently broadcast or truncated by Zarr is seen even when final values happen to be right. Declared shape/dtype/chunks are compared with the computed result, NumPy's shape and the zarr array opened from storage.",
+    text="For every generated program all nodes are requested unoptimized (run A) and the outputs optimized (run B). Every task of every operation writes through checking proxies (cubed's own task bodies run unchanged) that compare value.shape with the selection's shape, so a block silently broadcast or truncated by Zarr is seen even when final values happen to be right. Declared shape/dtype/chunks are compared with the computed result, NumPy's shape and the zarr array opened from storage (for lazy store/to_zarr results inside the program: the target itself).",
     design_ref="DESIGN.md section 3 C12",
     note="Zero-element blocks are exempt from the block-shape clause (nothing is written). Trusted: the proxy substitution via dataclasses.replace on BlockwiseSpec.writes_map (public dataclass field).",
 )
@@ -45,7 +45,7 @@ CHECKS["C05"] = dict(
 CHECKS["C06"] = dict(
     level="exploration",
     technique="property-based schedule sampling: the same plan is executed under a reference schedule and under generated schedules (task permutations, duplicated executions at three timings, cloudpickle round trip, fresh interpreter per task) and the complete store contents are compared byte for byte",
-    text="The harness owns the schedule through a DagExecutor that calls cubed's own task functions: it permutes the tasks of each operation, re-runs drawn tasks immediately / after their operation / after all downstream operations (array-creation tasks included), and runs tasks from their serialized form in-process or in a fresh interpreter. Oracle: every key of the store holds identical bytes to the reference schedule, rewritten keys always carry the same bytes, results are equal; random arrays regenerate identically while distinct blocks/arrays differ.",
+    text="The harness owns the schedule through a DagExecutor that calls cubed's own task functions: it permutes the tasks of each operation, re-runs drawn tasks immediately / after their operation / after all downstream operations (array-creation tasks included), and runs tasks from their serialized form in-process or in a fresh interpreter; separate shards run the same unoptimized plan on the real processes executor with batch_size in {1,2,3}, optional backups and both array-ordering modes and compare its results with in-process execution. Oracle: every key of the store holds identical bytes to the reference schedule, rewritten keys always carry the same bytes, results are equal; random arrays regenerate identically while distinct blocks/arrays differ.",
     design_ref="DESIGN.md section 3 C06",
     note="Duplicates are re-executions of completed tasks (no two writers of one key race). Serialized execution uses a LocalStore directory. Schedules are sampled, not enumerated.",
 )
@@ -69,7 +69,7 @@ CHECKS["C18"] = dict(
 CHECKS["C02"] = dict(
     level="exploration",
     technique="property-based differential testing: generated fusion-rich programs x requested-array sets x optimizer settings; optimized run vs optimize_graph=False run (and NumPy), plus read-back of every requested array from storage with plain zarr",
-    text="The unoptimized run provides the reference values; the intermediate store is then emptied and the same arrays are computed under a drawn optimizer (default, multiple-input with drawn limits incl. None, always_fuse/never_fuse subsets, legacy simple_optimize_dag, fuse-all, fuse-only) on a drawn executor. Every requested array must have exactly the reference values (stated float tolerance only where results are not exactly representable) and must be fully materialized in storage. Requested sets deliberately include ancestors of other requested arrays.",
+    text="The unoptimized run provides the reference values; the intermediate store is then emptied and the same arrays are computed under a drawn optimizer (default, multiple-input with drawn limits incl. None, always_fuse/never_fuse subsets, legacy simple_optimize_dag, fuse-all, fuse-only) on a drawn executor. Every requested array must have exactly the reference values (stated float tolerance only where results are not exactly representable) and must be fully materialized in storage. Requested sets deliberately include ancestors of other requested arrays. Programs may contain lazy store/to_zarr results as ordinary nodes (existing targets with equal, dividing or unrelated chunks, or a path): a target that the unoptimized run wrote must also be written by the default, multiple-input and legacy optimizers (targets are emptied between the two runs).",
     design_ref="DESIGN.md section 3 C02",
     note="Forced fusion uses a large allowed_mem; max_total_source_arrays=None is outside the supported parameter domain.",
 )
@@ -93,7 +93,7 @@ CHECKS["C16"] = dict(
 CHECKS["C04"] = dict(
     level="exploration",
     technique="property-based boundary testing: thresholds (projected_mem of every op of the unoptimized and optimized plan) are collected under a generous budget, then the same generated program is rebuilt with allowed_mem = t-1, t, t+1; admission model (refuse iff max projected > allowed) plus side-effect observation (recording executor, callbacks, store trace, work_dir) and wrapped fuse/fuse_multiple calls",
-    text="Each case sits within +-1 of an admission threshold of its own plan, under a drawn optimizer, entry point (compute, Array.compute, store, to_zarr), executor and storage set-up. The call must raise the memory error iff the final plan's maximum projected memory exceeds allowed_mem, and a refusal must have entered no executor, fired no callback and written nothing (intermediate store, target store, work_dir). Non-forcing optimizers must not push a fitting plan over budget; every fusion call must report at least the projected memory of each operation it replaced.",
+    text="Each case sits within +-1 of an admission threshold of its own plan, under a drawn optimizer (dedicated shards: trees of binary operations under the forcing optimizers, where the fused projection exceeds every original one), entry point (compute, Array.compute, store, to_zarr), executor and storage set-up. The call must raise the memory error iff the final plan's maximum projected memory exceeds allowed_mem, and a refusal must have entered no executor, fired no callback and written nothing (intermediate store, target store, work_dir). Non-forcing optimizers must not push a fitting plan over budget; every fusion call must report at least the projected memory of each operation it replaced.",
     design_ref="DESIGN.md section 3 C04",
     note="projected_mem values are taken from the plan (their truth is C03's subject). A rechunk-planner refusal at build time counts as refused before running.",
 )
@@ -109,7 +109,7 @@ CHECKS["C19"] = dict(
 CHECKS["C09"] = dict(
     level="fault_enumeration",
     technique="fault enumeration over generated programs: every crash point at task granularity (schedule-owning executor) and at chunk-write granularity (exception inside the store's set) is executed, followed by compute(resume=True); oracle from the clean run, the post-crash store listing and the resumed run's trace/callbacks",
-    text="For each generated program a clean run yields T tasks and W chunk writes; all T+1+W crash points are executed (evenly sampled to 48 for large plans). After every crash the resumed computation must either refuse before any task (storage that cannot report completeness) or return the clean run's values; operations skipped must have had all output chunks present (checked against the stored grid metadata), complete operations must not be re-run (except array creation / 0-d outputs), and the resumed run must not delete or change pre-existing chunks.",
+    text="For each generated program a clean run yields T tasks and W chunk writes; all T+1+W crash points are executed (evenly sampled to 48 for large plans); dedicated shards use multi-output operations, where one task writes a chunk of each output and a crash can separate the two writes. After every crash the resumed computation must either refuse before any task (storage that cannot report completeness) or return the clean run's values; operations skipped must have had all output chunks present (checked against the stored grid metadata), complete operations must not be re-run (except array creation / 0-d outputs), and the resumed run must not delete or change pre-existing chunks.",
     design_ref="DESIGN.md section 3 C09",
     note="Crash = exception at a task boundary or inside a chunk write; completed writes are durable. Pre-existing fully initialized user targets are outside the domain (resume defines complete as all chunks present).",
 )
@@ -117,7 +117,7 @@ CHECKS["C09"] = dict(
 CHECKS["C10"] = dict(
     level="exploration",
     technique="model-based stateful property testing (Hypothesis RuleBasedStateMachine): API call histories over a pool of related lazy arrays with a NumPy shadow per array, checksummed inputs and expected images of all earlier store targets; every step is a JSON record applied by one interpreter, so failing histories replay without Hypothesis",
-    text="Rules: new input, derive (shared op table), compute (subset, optimize, resume, executor or configured default), store/to_zarr of any member incl. ancestors of others and already stored members (eager/lazy; fresh, group, existing with equal or different chunks, region), compute earlier lazy stores, change the default executor, plan/visualize. After every step a drawn member must compute to the NumPy value fixed when it was built, all inputs must be byte-identical and every earlier target must still hold its image.",
+    text="Rules: new input, derive (shared op table), compute (subset, optimize, resume, executor or configured default), store/to_zarr of any member incl. ancestors of others and already stored members (eager/lazy; fresh, group, existing with equal or different chunks, region; the same member to a second target while its first store is still pending), compute earlier lazy stores, change the default executor, plan/visualize. After every step a drawn member must compute to the NumPy value fixed when it was built, all inputs must be byte-identical and every earlier target must still hold its image.",
     design_ref="DESIGN.md section 3 C10",
     note="Histories bounded (14 / 25 steps); single process; no external mutation of stores. Failures of a step itself are C17's business, the history continues.",
 )
@@ -125,7 +125,7 @@ CHECKS["C10"] = dict(
 CHECKS["C03"] = dict(
     level="exploration",
     technique="property-based measurement: generated (operation template, chunk geometry, dtype, compressor, data class, optimizer mode) cases run on real Zarr inputs with a sequential executor that measures the tracemalloc peak of every task of every operation; a violation must reproduce in three measurements and is attributed to a root cause by re-measuring uncompressed / unfused",
-    text="About 60 operation templates and fused chains on 1.5-6 MB chunks (square, skinny, uneven, wide geometries; six dtypes; compressor none/default; compressible/incompressible data; optimize off/default/fuse-all). For every task: tracemalloc peak <= projected_mem + 0.7 MB (reserved_mem = 0, noise 40-80 kB). The full 9,936-cell domain was surveyed once; seven root causes of under-projection found there are recorded as known findings with corpus probes and kept out of the sampled campaign by construction, so the search continues in the remaining region.",
+    text="About 80 operation templates (public operations, fused chains, fusions that keep two or three predecessor outputs alive, widening reductions over a short axis; every template is visited in every run) on 2-8 MB chunks for every dtype (square, skinny with 8/4/2-wide chunks, wide, uneven geometries; six dtypes; compressor none/default; compressible/incompressible data; optimize off/default/fuse-all). For every task: tracemalloc peak <= projected_mem + 0.7 MB (reserved_mem = 0, noise 40-80 kB). The full 9,936-cell domain was surveyed once; nine root causes of under-projection (seven from that survey, two found after adding multi-predecessor fusion templates and 2-wide chunk geometries) are recorded as known findings with corpus probes and kept out of the sampled campaign by construction, so the search continues in the remaining region.",
     design_ref="DESIGN.md section 3 C03",
     note="tracemalloc sees Python/NumPy allocations in all threads, not allocations inside C codecs. Peaks depend on how zarr's IO thread interleaves reads, hence the three-measurement rule. Mutations that only remove slack from a still-valid bound are invisible by design.",
 )
